@@ -174,8 +174,9 @@ NextGenSub ==
      \/ B_Cont(d) /\ sched' = Append(sched, Ent(d, pc[d].o, "cont"))
 SpecGenSub == InitB /\ [][NextGenSub]_vars
 Complete == Calls = Depth /\ \A d \in Docs : IdleD(d)
-Bad == ~Inv_Iso \/ ~Inv_UniqueIds
-\* only the schedules in which the as-built model predicts a violation are emitted
+\* sequential leaks are covered by SpecGen; here only the schedules are emitted in which the
+\* as-built model predicts a defect that needs an interleaving inside a call: a duplicate id
+Bad == ~Inv_UniqueIds
 EmitSub == ~(Complete /\ Bad) \/ PrintT(<<"WZCASE", ToJson(sched)>>)
 \* emitted regardless of the model's prediction (used for simulation of long schedules)
 EmitSubAll == ~Complete \/ PrintT(<<"WZCASE", ToJson(sched)>>)
